@@ -12,11 +12,18 @@
  *   file   <slot> <path>         slot in 3..10: reads on the descriptor that open()/openat()
  *                                returns for exactly this path follow the plan of <slot>
  *                                (limits/eintr/fail lines may name a slot instead of an fd)
+ *   dirfail <path> <k> <errno-name>
+ *                                the listing of exactly this directory fails: k = -1, opendir()
+ *                                fails; k >= 0, the readdir64() call that would have returned
+ *                                the k-th entry (".", ".." counted, k = number of entries: the
+ *                                call that would have reported the end) fails, and so does
+ *                                every later one on that listing. Logged as fd 20+i, op D / d.
  * Offsets are byte offsets on that fd. A transfer never straddles a planned offset.
  * After a sticky failure every call on that fd fails; more than 64 such calls end the
  * process with status 97 (liveness bound, reported by the harness).
  */
 #define _GNU_SOURCE
+#include <dirent.h>
 #include <dlfcn.h>
 #include <errno.h>
 #include <fcntl.h>
@@ -51,6 +58,15 @@ struct plan {
 static struct plan P[NSLOT];
 static char *slot_path[NSLOT];
 static unsigned char fd_slot[MAXFD]; /* fd -> slot for file arguments (0 = none) */
+#define NDIR 4
+static char *dir_path[NDIR];
+static long dir_at[NDIR];
+static int dir_errno[NDIR];
+static int ndirs;
+static DIR *dir_handle[NDIR];
+static long dir_count[NDIR];
+static int dir_delivered[NDIR];
+static int dir_post[NDIR];
 static int logfd = -1;
 static unsigned long seq;
 static int initialised;
@@ -94,6 +110,24 @@ static void init(void) {
         if (!strcmp(kw, "log")) {
             char p[900];
             if (sscanf(rest, "%899s", p) == 1) logfd = open(p, O_WRONLY | O_CREAT | O_APPEND | O_CLOEXEC, 0600);
+            continue;
+        }
+        if (!strcmp(kw, "dirfail")) {
+            /* the path may contain blanks: it ends at the last two fields */
+            char *nl = strchr(rest, '\n');
+            if (nl) *nl = 0;
+            char *e2 = strrchr(rest, ' ');
+            if (!e2) continue;
+            *e2 = 0;
+            char *e1 = strrchr(rest, ' ');
+            if (!e1) continue;
+            *e1 = 0;
+            if (ndirs < NDIR) {
+                dir_path[ndirs] = strdup(rest);
+                dir_at[ndirs] = strtol(e1 + 1, NULL, 10);
+                dir_errno[ndirs] = errno_of(e2 + 1);
+                ndirs++;
+            }
             continue;
         }
         int u2 = 0;
@@ -273,4 +307,60 @@ ssize_t writev(int fd, const struct iovec *iov, int iovcnt) {
     for (int i = 0; i < iovcnt; i++)
         if (iov[i].iov_len > 0) return do_write(fd, iov[i].iov_base, iov[i].iov_len);
     return 0;
+}
+
+/* directory listings (std::fs::read_dir = opendir + readdir64 + closedir) */
+DIR *opendir(const char *name) {
+    init();
+    static DIR *(*real)(const char *);
+    if (!real) real = (DIR * (*)(const char *)) dlsym(RTLD_NEXT, "opendir");
+    for (int i = 0; i < ndirs; i++)
+        if (name && !strcmp(dir_path[i], name)) {
+            if (dir_at[i] < 0) {
+                dir_delivered[i] = 1;
+                logline(20 + i, 'D', 0, 0, -1, dir_errno[i]);
+                errno = dir_errno[i];
+                return NULL;
+            }
+            DIR *d = real(name);
+            if (d) {
+                dir_handle[i] = d;
+                dir_count[i] = 0;
+                logline(20 + i, 'D', 0, 0, 0, 0);
+            }
+            return d;
+        }
+    return real(name);
+}
+
+struct dirent64 *readdir64(DIR *d) {
+    init();
+    static struct dirent64 *(*real)(DIR *);
+    if (!real) real = (struct dirent64 * (*)(DIR *)) dlsym(RTLD_NEXT, "readdir64");
+    for (int i = 0; i < ndirs; i++)
+        if (d && dir_handle[i] == d) {
+            if (dir_delivered[i] || dir_count[i] == dir_at[i]) {
+                if (dir_delivered[i] && ++dir_post[i] > 64) {
+                    logline(20 + i, 'd', 1, (size_t)dir_count[i], -2, 0);
+                    _exit(97);
+                }
+                dir_delivered[i] = 1;
+                logline(20 + i, 'd', 1, (size_t)dir_count[i], -1, dir_errno[i]);
+                errno = dir_errno[i];
+                return NULL;
+            }
+            struct dirent64 *e = real(d);
+            logline(20 + i, 'd', 1, (size_t)dir_count[i], e ? 1 : 0, 0);
+            if (e) dir_count[i]++;
+            return e;
+        }
+    return real(d);
+}
+
+int closedir(DIR *d) {
+    static int (*real)(DIR *);
+    if (!real) real = (int (*)(DIR *)) dlsym(RTLD_NEXT, "closedir");
+    for (int i = 0; i < ndirs; i++)
+        if (d && dir_handle[i] == d) dir_handle[i] = NULL;
+    return real(d);
 }
